@@ -31,11 +31,15 @@ type PeerOp struct {
 }
 
 type C05Session struct {
-	Shared   bool      `json:"shared"`  // all senders hand the SAME message object to Send (as the repository's own tests do)
-	Senders  [][]int64 `json:"senders"` // per sender goroutine: delay (ns) before each of its sends
-	Peer     []PeerOp  `json:"peer"`
-	ResetIncoming bool `json:"reset_incoming,omitempty"` // before this (second or later) session the application resets the INCOMING side of the shared counter store; the outgoing numbering continues
-	GapAfter int64     `json:"gap_after"` // virtual ns between the end of this connection and the next session (-1: the full settling time)
+	Shared        bool      `json:"shared"`  // all senders hand the SAME message object to Send (as the repository's own tests do)
+	Senders       [][]int64 `json:"senders"` // per sender goroutine: delay (ns) before each of its sends
+	Peer          []PeerOp  `json:"peer"`
+	ResetIncoming bool      `json:"reset_incoming,omitempty"` // before this (second or later) session the application resets the INCOMING side of the shared counter store; the outgoing numbering continues
+	// SilentEnd: when the scripted activity is over the peer says nothing more (it keeps reading); the
+	// session probes it and then ends the connection itself. Nothing is in flight at that point, so the
+	// stored counter must be the last number that went out.
+	SilentEnd bool  `json:"silent_end,omitempty"`
+	GapAfter  int64 `json:"gap_after"` // virtual ns between the end of this connection and the next session (-1: the full settling time)
 }
 
 type C05Case struct {
@@ -89,6 +93,8 @@ func genC05(t *rapid.T) *C05Case {
 		ss.GapAfter = rapid.SampledFrom([]int64{-1, 0, 1e6, int64(c.N) * 5e8}).Draw(t, "gapAfter")
 		ss.Shared = rapid.IntRange(0, 5).Draw(t, "shared") == 0
 		ss.ResetIncoming = s > 0 && rapid.IntRange(0, 2).Draw(t, "resetIncoming") == 0
+		// (for N = 1 and N = 2 a timer Heartbeat falls on the instant of the disconnect: in flight by definition)
+		ss.SilentEnd = c.N >= 3 && rapid.IntRange(0, 3).Draw(t, "silentEnd") == 0
 		c.Sessions = append(c.Sessions, ss)
 	}
 	return c
@@ -107,12 +113,14 @@ func checkC05(c *C05Case, rec *evid.Rec) (vs []pbt.Violation) {
 	defer done()
 	inner := memory.NewStorage()
 	type sessObs struct {
-		writes  []netsim.Write
-		sends   []sendRec
-		logonAt time.Time
-		counter int
-		startAt int // the store's outgoing counter when this session started
-		sendErr []string
+		writes    []netsim.Write
+		sends     []sendRec
+		logonAt   time.Time
+		counter   int
+		startAt   int // the store's outgoing counter when this session started
+		sendErr   []string
+		selfEnded bool
+		starts    []time.Time // instant at which each Send call began
 	}
 	var obs []sessObs
 	overlap := false
@@ -209,6 +217,7 @@ func checkC05(c *C05Case, rec *evid.Rec) (vs []pbt.Violation) {
 						err := sess.Send(msg)
 						end := time.Now()
 						mu.Lock()
+						o.starts = append(o.starts, start)
 						if err != nil {
 							o.sendErr = append(o.sendErr, err.Error())
 						} else if !ss.Shared { // a shared object's number is overwritten by the next sender
@@ -279,6 +288,13 @@ func checkC05(c *C05Case, rec *evid.Rec) (vs []pbt.Violation) {
 			<-peerDone
 			time.Sleep(3 * time.Second) // store/handler/write delays of messages in flight
 			synctest.Wait()
+			if ss.SilentEnd {
+				tol := max(1, c.N/20)
+				T := time.Duration(c.N+tol) * time.Second
+				time.Sleep(2*T + T/5 + 2*time.Second)
+				synctest.Wait()
+				o.selfEnded, _ = conn.IsClosed()
+			}
 			o.counter, _ = inner.GetCurrSeqNum(fix.StorageID{Side: fix.Outgoing})
 			o.writes = conn.Captured()
 			// overlapping send intervals?
@@ -365,6 +381,10 @@ func checkC05(c *C05Case, rec *evid.Rec) (vs []pbt.Violation) {
 				resendAsked = true
 			}
 		}
+		starts := append([]time.Time(nil), o.starts...)
+		sort.Slice(starts, func(i, j int) bool { return starts[i].Before(starts[j]) })
+		appIdx := 0
+		var prevTm time.Time
 		for k, m := range msgs {
 			total++
 			if err := ref.Framed(m, ref.StdTags); err != nil {
@@ -412,9 +432,21 @@ func checkC05(c *C05Case, rec *evid.Rec) (vs []pbt.Violation) {
 			lo := time.Date(2000, 1, 1, 0, 0, 0, 0, time.UTC)
 			if call, ok := calls[n]; ok {
 				lo = call.start
-			} else {
+			} else if out.Type != rig.TMDReject {
 				timerDriven++
 			}
+			if out.Type == rig.TMDReject {
+				// the i-th application message to be numbered was stamped when at least i Send calls had begun
+				// (this bound also holds when every sender hands over the same message object)
+				if appIdx < len(starts) && starts[appIdx].After(lo) {
+					lo = starts[appIdx]
+				}
+				appIdx++
+			}
+			if tm.Before(prevTm) && len(vs) == 0 {
+				vs = append(vs, pbt.V("sending-time-goes-back", "message #%d carries SendingTime %s, the message numbered before it %s: the time is not taken when the message is sent", n, st, prevTm.In(loc).Format("20060102-15:04:05.000")))
+			}
+			prevTm = tm
 			if tm.Before(lo.Truncate(time.Millisecond)) || tm.After(at[k]) {
 				vs = append(vs, pbt.V("sending-time-not-at-send", "message #%d: SendingTime %s is outside [%s, %s] (start of the send call / capture instant)", n, st, lo.UTC().Format("15:04:05.000"), at[k].UTC().Format("15:04:05.000")))
 			}
@@ -453,6 +485,9 @@ func checkC05(c *C05Case, rec *evid.Rec) (vs []pbt.Violation) {
 		rec.Hist("with-retransmissions")
 	}
 	for i, ss := range c.Sessions {
+		if ss.SilentEnd && i < len(obs) && obs[i].selfEnded {
+			rec.Hist("session-ended-by-its-own-watchdog")
+		}
 		if ss.Shared {
 			rec.Hist("shared-message-object")
 		}
